@@ -14,8 +14,10 @@ CENTERED iff the flag is true.
 This module is a small abstract interpreter over function bodies (ast only).  Functions of the package that are
 called are evaluated recursively (depth-limited) unless they have a *contract* (then the contract is used:
 modular verification, every defect is reported once, at the function that breaks its own contract) or are in the
-table of primitives.  Boolean flags (`fftshift`, `self.fftshift`) are enumerated by the caller; a test on a known
-flag selects one arm, any other test evaluates both arms and merges.
+table of primitives.  Boolean flags (`fftshift`, `self.fftshift`) and string selectors (`units`) are enumerated by
+the caller; a test on a known flag selects one arm, any other test evaluates both arms and merges (a variable
+that is FFT_ORDER on one path and CENTERED on the other becomes UNKNOWN; UNKNOWN reaching a checked position is
+an AnalysisError, never a verdict).
 """
 from __future__ import annotations
 
@@ -24,7 +26,7 @@ import itertools
 from dataclasses import dataclass, field
 from typing import Callable, Optional
 
-from ..model import AnalysisError, ClassInfo, FuncInfo, ModuleInfo, Repo, dotted, fold_constant, kw, last_attr, norm_text
+from ..model import AnalysisError, ClassInfo, FuncInfo, Repo, dotted, fold_constant, kw, last_attr
 
 F = "FFT_ORDER"
 C = "CENTERED"
@@ -168,7 +170,7 @@ class Interp:
         self.tracked[cls.name] = cls
 
     # -------------------------------------------------------------------------------------------- entry
-    def run(self, f: FuncInfo, env: dict, self_flags: Optional[dict[str, bool]] = None, use_contract_for_self=False):
+    def run(self, f: FuncInfo, env: dict, self_flags: Optional[dict[str, bool]] = None):
         """Evaluate f's body.  env: name -> value for parameters (and dotted `self.x` names).
         Returns (list of (return node, value), final env)."""
         env = dict(env)
@@ -292,7 +294,6 @@ class _Frame:
                 return self.exec_body(st.orelse)
             self.ev(st.test)
             saved = dict(self.env)
-            nret = len(self.returns)
             left1 = self.exec_body(st.body)
             env1 = self.env
             self.env = dict(saved)
@@ -327,7 +328,7 @@ class _Frame:
             return self.exec_body(st.body)
         if isinstance(st, ast.Try):
             saved = dict(self.env)
-            left = self.exec_body(st.body)
+            self.exec_body(st.body)
             env = self.env
             for h in st.handlers:
                 self.env = dict(saved)
@@ -695,8 +696,6 @@ class _Frame:
             t = self.it.repo.resolve_name(self.f.module, fn_expr.id)
             if isinstance(t, FuncInfo):
                 callee = t
-            elif fn_expr.id in self.env and False:
-                pass
         elif isinstance(fn_expr, ast.Attribute):
             base = dotted(fn_expr.value)
             if base in ("self", "cls") and self.f.cls is not None:
